@@ -50,9 +50,7 @@ pub struct PartyInfo {
     pub other: Option<Vec<u8>>,
 }
 
-impl crate::CborSerializable for PartyInfo {}
-
-«use crate::vprelude::*;
+impl crate::CborSerializable for PartyInfo {}«use crate::vprelude::*;
 use crate::header::{prot_ok, prot_res, prot_slot, prot_encodable};
 use crate::common::{regp_of, regp_cv, wf_regp};
 // PartyInfo = ( identity: bstr / nil, nonce: bstr / int / nil, other: bstr / nil )
@@ -73,6 +71,7 @@ pub open spec fn party_res(v: Value, x: PartyInfo) -> bool {
 pub open spec fn nonce_cv(n: Option<Nonce>) -> CV { match n { None => CV::Null, Some(Nonce::Bytes(b)) => CV::Bytes(b@), Some(Nonce::Integer(i)) => CV::Int(i as int) } }
 pub open spec fn party_cv(x: PartyInfo) -> CV { CV::Array(seq![opt_bytes_cv(x.identity), nonce_cv(x.nonce), opt_bytes_cv(x.other)]) }
 »
+
 impl AsCborValue for PartyInfo {«
     open spec fn dec_rel(value: Value, r: Result<Self>) -> bool { (r is Ok <==> party_ok(value)) && (r matches Ok(x) ==> party_res(value, x)) }
     open spec fn enc_rel(self, r: Result<Value>) -> bool { r matches Ok(v) && vv(v) == party_cv(self) }»
@@ -183,9 +182,7 @@ pub struct SuppPubInfo {
     pub other: Option<Vec<u8>>,
 }
 
-impl crate::CborSerializable for SuppPubInfo {}
-
-«// SuppPubInfo = [ keyDataLength: uint, protected: empty_or_serialized_map, ? other: bstr ]
+impl crate::CborSerializable for SuppPubInfo {}«// SuppPubInfo = [ keyDataLength: uint, protected: empty_or_serialized_map, ? other: bstr ]
 pub open spec fn kdl_of(v: Value) -> Option<u64> { match v { Value::Integer(i) => if 0 <= int_val(i) <= u64::MAX { Some(int_val(i) as u64) } else { None }, _ => None } }
 pub open spec fn supp_pub_ok(v: Value) -> bool {
     v is Array && (arr_of(v).len() == 2 || arr_of(v).len() == 3) && kdl_of(arr_of(v)[0]) is Some && prot_ok(arr_of(v)[1], 0)
@@ -202,6 +199,7 @@ pub open spec fn supp_pub_cv(x: SuppPubInfo) -> CV {
     }
 }
 »
+
 impl AsCborValue for SuppPubInfo {«
     open spec fn dec_rel(value: Value, r: Result<Self>) -> bool { (r is Ok <==> supp_pub_ok(value)) && (r matches Ok(x) ==> supp_pub_res(value, x)) }
     open spec fn enc_rel(self, r: Result<Value>) -> bool { (r is Ok <==> prot_encodable(self.protected)) && (r matches Ok(v) ==> vv(v) == supp_pub_cv(self)) }»
@@ -315,9 +313,7 @@ impl CoseKdfContext { pub closed spec fn is_default(self) -> bool {
     self.algorithm_id == Algorithm::Assigned(iana::Algorithm::Reserved) && self.party_u_info.is_default() && self.party_v_info.is_default()
     && self.supp_pub_info.is_default() && self.supp_priv_info@.len() == 0 } }
 »
-impl crate::CborSerializable for CoseKdfContext {}
-
-«// COSE_KDF_Context = [ AlgorithmID, PartyUInfo, PartyVInfo, SuppPubInfo, * SuppPrivInfo: bstr ]
+impl crate::CborSerializable for CoseKdfContext {}«// COSE_KDF_Context = [ AlgorithmID, PartyUInfo, PartyVInfo, SuppPubInfo, * SuppPrivInfo: bstr ]
 pub open spec fn kdf_ok(v: Value) -> bool {
     v is Array && arr_of(v).len() >= 4 && regp_of::<iana::Algorithm>(arr_of(v)[0]) is Some && party_ok(arr_of(v)[1]) && party_ok(arr_of(v)[2])
     && supp_pub_ok(arr_of(v)[3]) && forall |i: int| 4 <= i < arr_of(v).len() ==> (#[trigger] arr_of(v)[i]) is Bytes
@@ -333,6 +329,7 @@ pub closed spec fn kdf_cv(x: CoseKdfContext) -> CV {
 }
 pub closed spec fn kdf_encodable(x: CoseKdfContext) -> bool { prot_encodable(x.supp_pub_info.protected) }
 »
+
 impl AsCborValue for CoseKdfContext {«
     open spec fn dec_rel(value: Value, r: Result<Self>) -> bool { (r is Ok <==> kdf_ok(value)) && (r matches Ok(x) ==> kdf_res(value, x)) }
     open spec fn enc_rel(self, r: Result<Value>) -> bool { (r is Ok <==> kdf_encodable(self)) && (r matches Ok(v) ==> vv(v) == kdf_cv(self)) }»
@@ -388,8 +385,7 @@ impl AsCborValue for CoseKdfContext {«
             self.party_u_info.to_cbor_value()?,
             self.party_v_info.to_cbor_value()?,
             self.supp_pub_info.to_cbor_value()?,
-        ];
-        «let ghost sp = self.supp_priv_info@;
+        ];«let ghost sp = self.supp_priv_info@;
         let ghost head = seq![regp_cv(x0.algorithm_id), party_cv(x0.party_u_info), party_cv(x0.party_v_info), supp_pub_cv(x0.supp_pub_info)];
         proof { assert(vv_seq(v@) =~= head); }»
         for supp_priv_info in« it:» self.supp_priv_info«
